@@ -583,3 +583,25 @@ add('m-c15-df-keep-benign', CY, "            inds = self.get_matching_cycles(con
     "            d = d[self.get_matching_cycles(conditions)]\n", 'benign', ['C15'])
 add('m-c17-record-all-claimants-benign', CY, "        selected.extend(inds[np.where(uni_matches)[0], ii])\n", "        selected.extend(inds[closest_uni_inds, ii])\n",
     'benign', ['C17'])   # over-recording forgoes matches, the pairing stays one-to-one
+add('m-c14-iter-range', CY, "        for ii in range(self.ncycles):\n            if self.mode == 'cycle':\n                inds = _cycles_support.map_cycle_to_samples(self.cycle_vect, ii)\n                yield ii, inds",
+    "        for ii in range(self.ncycles - 1):\n            if self.mode == 'cycle':\n                inds = _cycles_support.map_cycle_to_samples(self.cycle_vect, ii)\n                yield ii, inds",
+    'breaking', ['C14'], 'C14.R6')
+add('m-c14-iter-yield-shifted', CY, "                inds = _cycles_support.map_cycle_to_samples(self.cycle_vect, ii)\n                yield ii, inds\n            elif self.mode == 'augmented':\n                inds = _cycles_support.map_cycle_to_samples_augmented(self.cycle_vect, ii, self.phase)\n                yield ii, inds\n            else:\n                raise ValueError\n\n    def iterate_valids",
+    "                inds = _cycles_support.map_cycle_to_samples(self.cycle_vect, ii + 1)\n                yield ii, inds\n            elif self.mode == 'augmented':\n                inds = _cycles_support.map_cycle_to_samples_augmented(self.cycle_vect, ii, self.phase)\n                yield ii, inds\n            else:\n                raise ValueError\n\n    def iterate_valids",
+    'breaking', ['C14'], 'C14.R6')
+add('m-c14-iter-ncycles', CY, "            self.ncycles = cycle_vect.max() + 1\n            self.nsamples = cycle_vect.shape[0]", "            self.ncycles = cycle_vect.max()\n            self.nsamples = cycle_vect.shape[0]",
+    'breaking', ['C14'], 'C14.R6')
+add('m-c14-iter-niters', CY, "        if self.iter_through == 'cycles':\n            return self.cycle_vect.max() + 1", "        if self.iter_through == 'cycles':\n            return self.cycle_vect.max()",
+    'breaking', ['C14'], 'C14.R6')
+add('m-c14-ensure-wrong-vector', CY, "        return IterateCycles(cycle_vect=invar)\n", "        return IterateCycles(subset_vect=invar)\n", 'breaking', ['C14'], 'C14.R6')
+add('m-c14-iter-niters-attr-benign', CY, "        if self.iter_through == 'cycles':\n            return self.cycle_vect.max() + 1", "        if self.iter_through == 'cycles':\n            return self.ncycles",
+    'benign', ['C14'])
+add('m-c14-stat-skip-tuple', 'emd/_cycles_support.py', "            args = [v[inds] for v in vals]\n            out[ii] = func(*args)\n        else:\n            out[ii] = func(vals[inds])\n    return out\n\n\ndef get_augmented",
+    "            args = [v[inds] for v in vals]\n        else:\n            out[ii] = func(vals[inds])\n    return out\n\n\ndef get_augmented", 'breaking', ['C14'], 'C14.R1')
+add('m-c15-slice-route-skip', 'emd/_cycles_support.py', "            args = [v[s] for v in vals]\n            out[idx] = func(*args)\n        return out",
+    "            args = [v[s] for v in vals]\n        return out", 'breaking', ['C15'], 'C15.R12')
+add('m-c15-slice-route-nan-missing', 'emd/_cycles_support.py', "        return np.array([func(vals[s]) if s is not None else np.nan for s in slices])",
+    "        return np.array([func(vals[s]) for s in slices])", 'breaking', ['C15'], 'C15.R12')
+add('m-c15-slice-route-range-benign', 'emd/_cycles_support.py', "        for idx, s in enumerate(slices):\n            if s is None:",
+    "        for idx in range(len(slices)):\n            s = slices[idx]\n            if s is None:", 'benign', ['C15'])
+add('m-l4-round-decimals', CY, "np.round(100*(mask.sum()/phase.shape[0]), 2)", "np.round(2, 100*(mask.sum()/phase.shape[0]))", 'breaking', ['C13', 'C12'], 'L4')
